@@ -17,3 +17,18 @@ func F11(yield func(Program)) {
 		}
 	}
 }
+
+// F12: template strings by the number of fragments that contribute a value - none ('{}', '{ }', '{}{}'), one, two,
+// with text before, between and after - in every place a value can stand. A template leaves exactly one value,
+// however many of its interpolations are empty.
+func F12(yield func(Program)) {
+	tmpls := []string{"'{}'", "'{ }'", "'{}{}'", "'a{}'", "'{}a'", "'{x}'", "'{x}{}'", "'{}{x}'", "''", "'{{}}'", "'{}{x}{}'", "'{}a{}'", "'{x}{x}'", "'a'", "'{x}a{x}'"}
+	ctxs := []string{"%s", "y := %s", "len(%s)", "[%s, 1]", "[1, %s]", "if %s == \"\" { y = 2 }", "for i := range 3 { %s }", "for i := range 3 { y = %s }", "for v in [1, 2] { len(%s) }",
+		"f(%s)", "f(1, %s)", "f(%s, 1)", "{\"k\": %s}", "switch %s { case \"\": y = 3 }", "func() { return %s }()", "%s + \"z\"", "x | f(%s)", "try(func() { return %s })"}
+	for _, tm := range tmpls {
+		for _, cx := range ctxs {
+			src := "x := 1\ny := 0\nf := func(p=0, q=0) { return p }\n" + fmt.Sprintf(cx, tm) + "\n[x, y]"
+			yield(Program{Fam: "F12template", Raw: src, Meta: "template " + tm + " in " + cx})
+		}
+	}
+}
